@@ -6,6 +6,7 @@ per-key-log specification `g i`.  Reads are `Table.latest` (point reads; scans a
 `BlockDb.get`.
 -/
 import Brc20.Proofs.NodeSim
+import Brc20.Proofs.ReachProps
 import Brc20.Gen.Tables
 
 namespace Brc20
@@ -99,5 +100,177 @@ theorem C03.every_table_committed_cleared_rolled_back :
 /-- The tables of the source are the tables of the model: same directory names, same declaration order. -/
 theorem C03.tables_of_the_source :
     Gen.versionedTables = allTIds.map TId.name ∧ Gen.blockTables = allBIds.map BId.name := by decide
+
+/-! ## The same, for every reachable state
+
+`Node.Reach n` (Proofs/NodeRun.lean): `n` is the empty node or the result of any call with any arguments and any
+recorded events on a reachable node, as long as the model answered `ok` or `err`. The hypotheses `NodeSim n g` and
+`HeightInv n` of the theorems above are discharged from it (`reach_sim`, `Reach.heightInv`). -/
+
+/-- **Commit is unobservable on every reachable node** at a block boundary: it answers `ok`; no table read, no
+block-table read, neither height, nor the highest finalised block changes; the result is reachable again. -/
+theorem C03.commit_unobservable_reachable (n : Node) (hr : Reach n) (hw : n.lbi.waiting = 0) :
+    n.commit.2 = .ok ∧
+    (∀ i k, (n.commit.1.t i).latest k = (n.t i).latest k) ∧
+    (∀ i k, (n.commit.1.b i).get k = (n.b i).get k) ∧
+    n.commit.1.latestHeight = n.latestHeight ∧ n.commit.1.nextHeight = n.nextHeight ∧
+    n.commit.1.lbi = n.lbi ∧ n.commit.1.maxBlock = n.maxBlock ∧ Reach n.commit.1 := by
+  obtain ⟨g, hs⟩ := reach_sim hr
+  obtain ⟨h1, h2, h3, h4, h5, h6, h7, _, _⟩ := C03.commit_unobservable n g hs (hr.heightInv hw) hw
+  refine ⟨h1, h2, h3, h4, h5, h6, h7, ?_⟩
+  exact Reach.step .commit hr (by show n.commit.2.accepted; rw [h1]; trivial)
+
+/-- Mid-block a commit is refused and changes nothing at all, so: **on every reachable node, whatever `commit`
+answers, no read and no height changes.** -/
+theorem C03.commit_never_observable (n : Node) (hr : Reach n) :
+    (∀ i k, (n.commit.1.t i).latest k = (n.t i).latest k) ∧
+    (∀ i k, (n.commit.1.b i).get k = (n.b i).get k) ∧
+    n.commit.1.latestHeight = n.latestHeight ∧ n.commit.1.nextHeight = n.nextHeight := by
+  by_cases hw : n.lbi.waiting = 0
+  · obtain ⟨_, h2, h3, h4, h5, _⟩ := C03.commit_unobservable_reachable n hr hw
+    exact ⟨h2, h3, h4, h5⟩
+  · have e : n.commit = (n, .err "waiting") := by simp [Node.commit, hw]
+    rw [e]
+    exact ⟨fun _ _ => rfl, fun _ _ => rfl, rfl, rfl⟩
+
+/-- **Commit followed by stop + reopen changes no table read, no block-table read and no height**, on every
+reachable node at a block boundary. -/
+theorem C03.commit_then_reopen_reachable (n : Node) (hr : Reach n) (hw : n.lbi.waiting = 0) :
+    (∀ i k, (n.commit.1.reopen.t i).latest k = (n.t i).latest k) ∧
+    (∀ i k, (n.commit.1.reopen.b i).get k = (n.b i).get k) ∧
+    n.commit.1.reopen.latestHeight = n.latestHeight ∧ n.commit.1.reopen.nextHeight = n.nextHeight ∧
+    Reach n.commit.1.reopen := by
+  obtain ⟨g, hs⟩ := reach_sim hr
+  obtain ⟨h1, h2, h3⟩ := C03.reopen_after_commit n g hs (hr.heightInv hw) hw
+  obtain ⟨_, _, _, _, h5, _, _, hr'⟩ := C03.commit_unobservable_reachable n hr hw
+  refine ⟨h1, h2, h3, ?_, Reach.step .reopen hr' trivial⟩
+  have e : n.commit = (n.commitAll, .ok) := by simp [Node.commit, hw]
+  rw [e] at h5 ⊢
+  rw [← h5]; rfl
+
+/-- **`clear_caches` / restart without commit = the state of the last commit**, on every reachable node, with the
+plain logs `G` that `ReachG` carries along: `G.d i` is the log of table `i` as of the last commit point (it is set to
+the current log by an accepted `commit` / `reorg` and by nothing else: `Node.Op.ghost_d`,
+`Node.Op.ghost_d_commitPoint`), and after `clear` - likewise after stop + reopen - every table reads, for every key,
+what that log says. `G.d` is also the `dur` component of the current log. The block under construction and the
+in-memory height are forgotten, block tables read their column, and the result is reachable with logs `G.clear`. -/
+theorem C03.clear_is_last_commit_reachable (n : Node) (G : Ghost) (hr : ReachG n G) :
+    (∀ i k, (n.clear.1.t i).latest k = (G.d i).read k) ∧
+    (∀ i k, (n.reopen.t i).latest k = (G.d i).read k) ∧
+    (∀ i k, (G.d i).read k = ((G.s i).dur k).latest) ∧
+    n.clear.1.lbi = {} ∧ n.clear.1.latest = none ∧
+    (∀ i k, (n.clear.1.b i).get k = (n.b i).db.get? k) ∧
+    ReachG n.clear.1 G.clear := by
+  have hc := hr.inv.core
+  have hread : ∀ i k, (n.clear.1.t i).latest k = (G.d i).read k := fun i k => Table.sim_latest (hc.dsim i) k
+  refine ⟨hread, hread, ?_, rfl, rfl, fun i k => BlockDb.get_clear (n.b i) k, ReachG.step .clear hr trivial trivial⟩
+  intro i k
+  show ((G.d i).cur k).latest = _
+  rw [(hc.dur_coh i).1]
+
+/-- **Uncommitted work is what is lost** (for every node, reachable or not): a call that is not a commit point
+(anything but `commit` and `reorg`), whatever its arguments, recorded events and answer, writes caches only. After a
+`clear` / restart the node is the one the `clear` would have produced without the call - up to the written-through
+`max_block_number` row, which a finalise raises at once. In particular every table read, every block-table read and
+both heights after the restart are those of the last commit point. -/
+theorem C03.uncommitted_work_lost (n : Node) (op : Op) (hop : op.isCommitPoint = false) :
+    ((op.run n).1.clear).1 = { (n.clear).1 with maxBlock := (op.run n).1.maxBlock } ∧
+    (∀ i k, (((op.run n).1.clear).1.t i).latest k = ((n.clear).1.t i).latest k) ∧
+    (∀ i k, (((op.run n).1.clear).1.b i).get k = ((n.clear).1.b i).get k) ∧
+    ((op.run n).1.clear).1.latestHeight = (n.clear).1.latestHeight ∧
+    ((op.run n).1.clear).1.nextHeight = (n.clear).1.nextHeight := by
+  have e := (Op.run_clearEq op n hop).clear_eq
+  refine ⟨e, ?_, ?_, ?_, ?_⟩
+  · intro i k; rw [e]
+  · intro i k; rw [e]
+  · rw [e]; rfl
+  · rw [e]; rfl
+
+/-- **`HeightInv` holds on every reachable node, mid-block included**: the in-memory height, when present, is the
+newest row of the hash table, and no block table binds a number twice. (The model refuses recorded block-table writes
+in a call that adds transactions - the engine writes those tables in `finalise_block` only - so the restriction to
+block boundaries of `Node.Reach.heightInv` is gone.) -/
+theorem C03.heightInv_reachable (n : Node) (hr : Reach n) : HeightInv n := hr.heightInv_always
+
+/-- **A call that adds transactions does not touch the block tables, the in-memory height or the highest finalised
+block**, whatever its arguments, recorded events and answer (for every node). -/
+theorem C03.transactions_leave_block_tables (n : Node) :
+    (∀ ts h idx txid evs k, (n.addTxs ts h idx txid evs k).1.b = n.b ∧ (n.addTxs ts h idx txid evs k).1.latest = n.latest ∧
+      (n.addTxs ts h idx txid evs k).1.maxBlock = n.maxBlock) ∧
+    (∀ ts h idx txid d evs, (n.addRawTx ts h idx txid d evs).1.b = n.b ∧
+      (n.addRawTx ts h idx txid d evs).1.latest = n.latest ∧ (n.addRawTx ts h idx txid d evs).1.maxBlock = n.maxBlock) :=
+  ⟨fun ts h idx txid evs k => addTxs_block_frame n ts h idx txid evs k,
+   fun ts h idx txid d evs => addRawTx_block_frame n ts h idx txid d evs⟩
+
+namespace C03.Example
+open Node.Example
+
+/-- the node of `Node.Example` right before its final `commit`: genesis with a deployment, a parked transaction, one
+block with a call, one mined block - nothing of blocks 1 and 2 committed yet -/
+def pre : Node × Ghost := runOps (ops.take 5) ({}, Ghost.init)
+
+theorem pre_reach : ReachG pre.1 pre.2 := reachG_runOps (ops.take 5) ReachG.init (by decide) (by decide)
+
+/-- Non-vacuity of `C03.commit_unobservable_reachable`: it applies to that node ... -/
+example : pre.1.commit.2 = .ok ∧
+    (∀ i k, (pre.1.commit.1.t i).latest k = (pre.1.t i).latest k) ∧
+    (∀ i k, (pre.1.commit.1.b i).get k = (pre.1.b i).get k) ∧
+    pre.1.commit.1.latestHeight = pre.1.latestHeight ∧ pre.1.commit.1.nextHeight = pre.1.nextHeight := by
+  obtain ⟨h1, h2, h3, h4, h5, _⟩ := C03.commit_unobservable_reachable pre.1 pre_reach.reach (by decide)
+  exact ⟨h1, h2, h3, h4, h5⟩
+
+/-- ... on which the commit is not a no-op: rows move from the caches to the columns, the in-memory height is
+dropped, and a restart before the commit would have lost blocks 1 and 2 (height 0 instead of 2). -/
+example : (pre.1.t .account).cache ≠ [] ∧ (pre.1.commit.1.t .account).cache = [] ∧
+    (pre.1.b .numberToHash).db.get? 2 = none ∧ (pre.1.commit.1.b .numberToHash).db.get? 2 = some h2 ∧
+    pre.1.latest = some (2, h2) ∧ pre.1.commit.1.latest = none ∧
+    pre.1.latestHeight = 2 ∧ pre.1.reopen.latestHeight = 0 ∧ pre.1.commit.1.reopen.latestHeight = 2 := by decide
+
+/-- the same history with a `commit` right after the genesis -/
+def opsC : List Op := ops.take 1 ++ [.commit] ++ (ops.drop 1).take 4
+
+def pre2 : Node × Ghost := runOps opsC ({}, Ghost.init)
+
+theorem pre2_reach : ReachG pre2.1 pre2.2 := reachG_runOps opsC ReachG.init (by decide) (by decide)
+
+/-- Non-vacuity of `C03.clear_is_last_commit_reachable`: after a restart the `account` row reads what the log as of
+the last commit (the genesis) says, not the value written in block 1; the height is back to 0. -/
+example : (pre2.1.t .account).latest "aa" = some acct1 ∧ (pre2.1.reopen.t .account).latest "aa" = some acct0 ∧
+    (pre2.2.d .account).read "aa" = some acct0 ∧ pre2.1.latestHeight = 2 ∧ pre2.1.reopen.latestHeight = 0 :=
+  ⟨by decide, by decide,
+    ((C03.clear_is_last_commit_reachable pre2.1 pre2.2 pre2_reach).2.1 .account "aa").symm.trans (by decide),
+    by decide, by decide⟩
+
+/-- a call of block 1 whose recorded writes contain a hash row for the block under construction -/
+def evCallRow : List Ev := evCall ++ [.s "block_number_to_hash" 1 "0000000000000001" (some "zz")]
+
+/-- the node after the genesis -/
+def gen : Node × Ghost := runOps [.initialise zeroHash 100 0 evGenesis] ({}, Ghost.init)
+
+theorem gen_reach : ReachG gen.1 gen.2 :=
+  reachG_runOps [.initialise zeroHash 100 0 evGenesis] ReachG.init (by decide) (by decide)
+
+/-- **The former counterexample to `HeightInv` mid-block is now rejected by the model.** The model's `addTxs` used to
+accept a recorded `block_number_to_hash` write stamped with the height being built, after which the newest hash row
+(1) was above the in-memory height (0). The engine's `add_tx_to_block` issues no block-table write; the model now
+refuses such an event list (`tx-wrote-block-table`) and leaves the node alone, while the same call without that
+write is accepted. -/
+example : (gen.1.addTxs 200 zeroHash 0 (some "ab") evCallRow (some 1)).2 = .reject "tx-wrote-block-table" ∧
+    (gen.1.addTxs 200 zeroHash 0 (some "ab") evCallRow (some 1)).1.lbi = gen.1.lbi ∧
+    (gen.1.addTxs 200 zeroHash 0 (some "ab") evCall (some 1)).2 = .ok := by decide
+
+/-- the node in the middle of block 1 (one transaction appended) -/
+def mid : Node × Ghost :=
+  runOps [.initialise zeroHash 100 0 evGenesis, .addTxs 200 zeroHash 0 (some "ab") evCall (some 1)] ({}, Ghost.init)
+
+theorem mid_reach : ReachG mid.1 mid.2 := reachG_runOps _ ReachG.init (by decide) (by decide)
+
+/-- Non-vacuity of `C03.heightInv_reachable` mid-block: a reachable node with a transaction in its block; the newest
+hash row is the in-memory height. -/
+example : Reach mid.1 ∧ mid.1.lbi.waiting = 1 ∧ mid.1.latest = some (0, h0) ∧
+    (mid.1.b .numberToHash).lastKey = some 0 ∧ HeightInv mid.1 :=
+  ⟨mid_reach.reach, by decide, by decide, by decide, C03.heightInv_reachable mid.1 mid_reach.reach⟩
+
+end C03.Example
 
 end Brc20
